@@ -78,6 +78,16 @@ func matchRow(text string, line string, avail int) (ok bool, truncated bool) {
 	if text == strings.TrimRight(line, " ") {
 		return true, false // the whole line is shown (rows wider than the window are rejected separately)
 	}
+	if rowWidth(line) != len(line) {
+		// a line with double-width characters (they follow an ASCII head that every query matches
+		// in, so the row is never scrolled): only widths are compared. A line wider than the text
+		// columns is cut at the right with the ellipsis and stays within them.
+		if rowWidth(line) <= avail {
+			return false, false
+		}
+		core := strings.TrimRight(strings.TrimSuffix(text, ".."), " ")
+		return strings.HasSuffix(text, "..") && core != "" && strings.HasPrefix(line, core) && rowWidth(text) <= avail, true
+	}
 	if len(line) <= avail {
 		return false, false
 	}
@@ -391,7 +401,7 @@ func uniqueTokens(i, k int, accent string) string {
 
 func c15Session(t *rapid.T) {
 	n := rapid.SampledFrom([]int{0, 1, 3, 8, 25, 70}).Draw(t, "nlines")
-	kinds := []string{"short", "short", "medium", "long", "spaces", "accent-medium", "accent-long"}
+	kinds := []string{"short", "short", "medium", "long", "spaces", "accent-medium", "accent-long", "wide"}
 	lines := make([]string, n)
 	for i := range lines {
 		switch rapid.SampledFrom(kinds).Draw(t, "kind") {
@@ -405,6 +415,9 @@ func c15Session(t *rapid.T) {
 			lines[i] = fmt.Sprintf("item-%03d café m%dé téxt b-%d a", i, i, i*7)
 		case "accent-long":
 			lines[i] = fmt.Sprintf("item-%03d %s énd-%d", i, uniqueTokens(i, rapid.IntRange(8, 24).Draw(t, "rep"), "é"), i)
+		case "wide":
+			// double-width characters: as many characters as the window has columns, or fewer, but more cells
+			lines[i] = fmt.Sprintf("item-%03d w%d %s", i, i, strings.Repeat("漢字", rapid.IntRange(4, 30).Draw(t, "wideRep")))
 		default:
 			lines[i] = fmt.Sprintf("item-%03d   s%da   o%db   a  %d", i, i, i, i)
 		}
